@@ -41,6 +41,12 @@ func genC12(t *rapid.T) c12Case {
 	c := c12Case{N: rapid.IntRange(1, scale(3, 4)).Draw(t, "n"), RespMs: rapid.SampledFrom([]int{60, 80, 120}).Draw(t, "resp"),
 		HBMs: rapid.SampledFrom([]int{100, 150, 250}).Draw(t, "hb"), Sess: rapid.IntRange(0, 2).Draw(t, "sess")}
 	nr := rapid.IntRange(1, 3).Draw(t, "rounds")
+	if rapid.IntRange(0, 5).Draw(t, "directed") == 0 {
+		// directed history: a re-association that falls into an outstanding heartbeat, then a peer heartbeat into
+		// the next outstanding one - the replaced monitor must be gone by then (found c2c7ca4 in the thorough tier)
+		c.Rounds = append(c.Rounds, c12Round{K: rapid.IntRange(2, c.N+1).Draw(t, "rk"), Special: "reassoc"}, c12Round{K: 1, Special: "peerhb"})
+		nr = rapid.IntRange(0, 1).Draw(t, "more")
+	}
 	for i := 0; i < nr; i++ {
 		r := c12Round{K: rapid.IntRange(1, c.N+1).Draw(t, "k")}
 		r.Special = rapid.SampledFrom([]string{"", "", "", "dup", "wrongseq", "peerhb", "reassoc"}).Draw(t, "special")
